@@ -114,4 +114,22 @@ CHECKS = {
                 'rejected unless a recogniser of the documented grammar accepts them.',
         'note': _TB + '; line breaks only inside parentheses; integer-matcher evaluation order unobservable',
     },
+    'C10': {
+        'category': 'exploration',
+        'technique': 'runtime monitoring: probe records (argv, stdin, cwd) and process-boundary records of every started process compared with the denotation of the PROGRAM syntax; audit count of Popen events',
+        'text': 'Exit codes 0..255 x 5 places, program-symbol chains of depth 0..3 x 5 program kinds x 13 contexts, 13 actor forms x 7 stdin kinds, '
+                'argument vocabulary, executable forms x phases (1997 core cases) plus seeded compositions: every started process must '
+                'receive the argv, stdin bytes and cwd the reference denotation gives, shell commands as one verbatim string, outcome '
+                'files/assertions must reflect what the probe emitted, non-zero exit = FAIL in [assert] / HARD_ERROR elsewhere.',
+        'note': _TB + '; constructs whose meaning the manual leaves open are not generated (see evidence assumptions)',
+    },
+    'C15': {
+        'category': 'exploration',
+        'technique': 'runtime monitoring: tree snapshots and audit events after populating, verdicts of files-/file-matchers on harness-built trees, compared with a reference model over a tree data structure',
+        'text': 'All ordered pairs of 16 FILE-SPEC forms (and triples of 6), pairs of dir instruction forms, every (min,max) depth on every '
+                'directory of fixed trees with symlinks, matcher pools x selection/prune/quantifiers, plus seeded trees/lists/matchers: the '
+                'tree on disk must equal the denoted tree or HARD_ERROR as the model says, nothing may be created outside the populated '
+                'directory, absolute and `..` names must be rejected, and every dir-contents / exists verdict must equal the reference.',
+        'note': _TB + '; symlink loops, `.`/empty name components and unanchored name regexes are not generated',
+    },
 }
